@@ -401,6 +401,9 @@ def check_individual(ctx, items, label):
         ctx.count(("indiv", json.dumps(it["rep"], sort_keys=True, default=str)), nontrivial=nph >= 2)
         ctx.tally(f"individual.{label}")
         ctx.tally("individual.phased_calls", nph)
+        acc_, undet_ = it["acc"], [(-1 in c) for c in it["cols"]]
+        nadj = sum(1 for i in G.adjacent_pairs(acc_) if (i + 1) in it["cuts"] and not undet_[i] and not undet_[i + 1])
+        ctx.tally("individual.adjacent_positions_with_cut_between", nadj)
         ctx.tally("individual.phase_sets", len({c[2] for _, c in it["outs"] if c[1]}))
     failing = evaluate("C15indiv", INDIV_CHECKS, cases, shard=100)
     for i in failing["L1"]:
@@ -523,8 +526,12 @@ CLI_DISTRUST_CHECKS = {
 }
 
 
-def make_cli_spec(rng, ploidy=None, deep=False):
+def make_cli_spec(rng, ploidy=None, deep=False, adjacent=False):
     k = ploidy or rng.choice([3, 4])
+    if adjacent:
+        return dict(k=rng.choice([2, 3]), nsamples=1, nvars=rng.randint(6, 9), seed=rng.randrange(1 << 30),
+                    sens=rng.randint(1, 5), prephase=False, reference=False, deep=False, adjacent=True,
+                    nreads=rng.randint(10, 16) * 3)
     if deep:
         return dict(k=2, nsamples=1, nvars=5, seed=rng.randrange(1 << 30), sens=4, prephase=False, reference=False,
                     deep=True, nreads=720)
@@ -537,7 +544,40 @@ def build_cli_inputs(spec, wd):
     import random
     rng = random.Random(spec["seed"])
     k = spec["k"]
-    if spec["deep"]:
+    if spec.get("adjacent"):
+        # two heterozygous SNVs on directly neighbouring reference positions p, p+1; every read ends after p or starts
+        # at p+1, so the variants are read-covered but never linked: a phase-set cut exactly between them (-B >= 1)
+        sc = synth.make_poly_scenario(rng, k, nsamples=1, nvars=spec["nvars"], kinds=("snv",), multiallelic_fraction=0.3,
+                                      collapse_prob=0, het_fraction=1.0)
+        vs = sc.variants["chrA"]
+        cols = sc.haps["S1"]["chrA"]
+        j = rng.randint(1, len(vs) - 3)                       # variant j at p, new variant at p + 1
+        p = vs[j].pos
+        ref = sc.ref["chrA"]
+        alt = rng.choice([b for b in synth.BASES if b != ref[p + 1]])
+        vs.insert(j + 1, synth.PolyVariant(p + 1, ref[p + 1], [alt], "snv"))
+        while True:
+            col = tuple(rng.randrange(2) for _ in range(k))
+            if len(set(col)) > 1:
+                break
+        cols.insert(j + 1, col)
+        reads = []
+        L = len(ref)
+        for n in range(spec["nreads"]):
+            h = n % k
+            tv = [synth.Variant(v.pos, v.ref, v.alts[c[h] - 1] if c[h] > 0 else v.alts[0], v.kind) for v, c in zip(vs, cols)]
+            ta = [0 if c[h] == 0 else 1 for c in cols]
+            if n % 2 == 0:
+                lo, hi = rng.randint(0, max(0, vs[j - 1].pos - 5)), p + 1          # left group: ..., p
+            else:
+                lo, hi = p + 1, rng.randint(min(L - 1, vs[j + 2].pos + 5), L - 1)   # right group: p+1, ...
+            while lo < hi and not synth.legal_boundary([v for v in tv if v.pos not in (p, p + 1)], lo):
+                lo += 1
+            seq, cig = synth.hap_walk(ref, tv, ta, lo, hi)
+            reads.append(dict(name=f"adj{n}", sample="S1", chrom="chrA", start=lo, end=hi, cigar=cig, seq=seq, qual=30,
+                              hap=h, flag=0))
+        override, planted, phased = {}, set(), None
+    elif spec["deep"]:
         sc = synth.make_poly_scenario(rng, k, nsamples=1, nvars=spec["nvars"], kinds=("snv",), multiallelic_fraction=1.0,
                                       collapse_prob=0, het_fraction=1.0)
         cols = sc.haps["S1"]["chrA"]
@@ -698,7 +738,14 @@ def cli_case(ctx, spec, wd):
     fo.append([it("hdr:" + ln) for ln in keep if ln in outhdr or any(o.replace(" ", "") == ln.replace(" ", "") for o in outhdr)])
     case = "(" + ", ".join([L(samples_t, "list Z * list obs"), L(untouched_t, "list rawcall * list rawcall"),
                             zcols(fi), zcols(fo)]) + ")"
-    return dict(case=case, rep=rep, info=info, nphased=nphased, planted=planted, spec=spec, wd=wd)
+    nadjcut = 0
+    for s_, chrom, a, obs, outs in info:
+        if a is None:
+            continue
+        ph = {p: ps for p, gi, ips, go, phd, ps in obs if phd}
+        # neighbouring positions, both phased; in an `adjacent` spec no read links them, so a cut lies between them
+        nadjcut += sum(1 for x in a if (x + 1) in ph and (x + 2) in ph and (spec.get("adjacent") or ph[x + 1] != ph[x + 2]))
+    return dict(case=case, rep=rep, info=info, nphased=nphased, planted=planted, spec=spec, wd=wd, nadjcut=nadjcut)
 
 
 def check_cli(ctx, runs, label):
@@ -713,6 +760,7 @@ def check_cli(ctx, runs, label):
         if r["spec"].get("distrust"):
             ctx.tally("cli.distrust_genotypes")
         ctx.tally("cli.phased_calls", r["nphased"])
+        ctx.tally("cli.adjacent_positions_with_cut_between", r.get("nadjcut", 0))
     trusted = [i for i, r in enumerate(runs) if not r["spec"].get("distrust")]
     distrusted = [i for i, r in enumerate(runs) if r["spec"].get("distrust")]
     f1 = evaluate("C15cli", CLI_CHECKS, [cases[i] for i in trusted], shard=4)
@@ -845,14 +893,23 @@ def run(ctx):
         item["deep"] = True
         dispatch_events(ctx, ev, item["rep"], "traced-deep", b)
         indiv.append(item)
+    for i in range(ctx.n(8, 100)):
+        # variants on neighbouring positions p, p+1 with no read across: a real block cut exactly between them
+        inst = G.gen_matrix_instance(rng, adjacent_split=True)
+        ev, item = drive_individual(ctx, inst, wd, f"a{i}")
+        dispatch_events(ctx, ev, item["rep"], "traced-adjacent", b)
+        indiv.append(item)
     for i in range(ctx.n(40, 700)):
-        inst = G.gen_matrix_instance(rng)
-        stub = G.gen_stub_result(rng, inst)
+        plant = i % 2 == 0
+        inst = G.gen_matrix_instance(rng, adjacent_split=plant)
+        stub = G.gen_stub_result(rng, inst, plant_adjacent_cut=plant)
         ev, item = drive_individual(ctx, inst, wd, f"s{i}", stub=stub)
         dispatch_events(ctx, [e for e in ev if e["kind"] == "cuts"], item["rep"], "stub", b)
         indiv.append(item)
     flush_buckets(ctx, b, "traced")
     check_individual(ctx, indiv, "all")
+    if not ctx.dist.get("individual.adjacent_positions_with_cut_between") and not ctx.violations:
+        raise RuntimeError("generator lost its coverage: no neighbouring positions with a phase-set cut between them")
     ctx.sample({"matrix_instance": {k: indiv[0]["rep"]["inst"][k] for k in ("k", "positions", "genos")},
                 "cuts": indiv[0]["cuts"], "output": indiv[0]["outs"]})
 
@@ -869,6 +926,8 @@ def run(ctx):
         s = make_cli_spec(rng)
         s["distrust"] = True
         specs.append(s)
+    for _ in range(ctx.n(2, 12)):                    # neighbouring positions p, p+1 with a cut between them
+        specs.append(make_cli_spec(rng, adjacent=True))
     corpus_deep = make_cli_spec(rng, deep=True)      # corpus: the CLI-level witness of force:likelihood-underflow
     corpus_deep["seed"] = 7
     specs.append(corpus_deep)
@@ -877,6 +936,8 @@ def run(ctx):
     for i, s in enumerate(specs):
         runs.append(cli_case(ctx, s, os.path.join(wd, f"cli{i}")))
     check_cli(ctx, runs, "synthetic")
+    if not ctx.dist.get("cli.adjacent_positions_with_cut_between") and not ctx.violations:
+        raise RuntimeError("generator lost its coverage: no CLI run with a phase-set cut between neighbouring positions")
     ok = [r for r in runs if r]
     if ok:
         ctx.sample({"cli_spec": ok[0]["spec"], "phased_calls": ok[0]["nphased"]})
